@@ -157,3 +157,13 @@ package bscript
 //@ func bscript.(*Script).PublicKeyHash
 //@   bytes token
 //@   ensures[C15.pkh_recovered] (=> (and (not (nil? s)) (= err nil) (= (blen (old (bytes s))) 25) (= (bat (old (bytes s)) 0) 118) (= (bat (old (bytes s)) 1) 169) (= (bat (old (bytes s)) 2) 20)) (= (bytes r0) (bsub (old (bytes s)) 3 23)))
+
+// ---- BIP276 text encoding (C17): layout of the encoder (the decoder is a regular expression: bounded stand-in) ----
+//@ func bscript.createBIP276
+//@   bytes token
+//@   ensures[C17.layout_payload] (= (bstr r0) (bcat (bstr (. script Prefix)) (bcat (bstr ":") (bcat (bhex2 (. script Version)) (bcat (bhex2 (. script Network)) (bstr (bhex (old (bytes (. script Data))))))))))
+//@   ensures[C17.layout_checksum] (= r1 (bhex (bsub (bsha256d (bstr r0)) 0 4)))
+//@ func bscript.EncodeBIP276
+//@   bytes token
+//@   ensures[C17.encode_range] (=> (or (= (. script Version) 0) (> (. script Version) 255) (= (. script Network) 0) (> (. script Network) 255)) (= result "ERROR"))
+//@   ensures[C17.encode_layout] (=> (and (<= 1 (. script Version)) (<= (. script Version) 255) (<= 1 (. script Network)) (<= (. script Network) 255)) (= (bstr result) (bcat (bcat (bstr (. script Prefix)) (bcat (bstr ":") (bcat (bhex2 (. script Version)) (bcat (bhex2 (. script Network)) (bstr (bhex (old (bytes (. script Data))))))))) (bstr (bhex (bsub (bsha256d (bcat (bstr (. script Prefix)) (bcat (bstr ":") (bcat (bhex2 (. script Version)) (bcat (bhex2 (. script Network)) (bstr (bhex (old (bytes (. script Data)))))))))) 0 4))))))
